@@ -60,6 +60,10 @@ def main():
             sh(["git", "-C", "/repo", "worktree", "remove", "--force", clean])
             os.makedirs(clean, exist_ok=True)
         out["checks"] = {}
+        evbak = tempfile.mkdtemp(prefix="evbak")
+        for f in os.listdir(os.path.join(VERIF, "evidence")):
+            shutil.copy(os.path.join(VERIF, "evidence", f), evbak)
+        out["_evbak"] = evbak
         for p in props:
             t0 = time.time()
             env = dict(os.environ, PYFLWDIR_REPO=scratch, VERIF_SEED=seed)
@@ -81,7 +85,11 @@ def main():
         sh(["git", "-C", "/repo", "worktree", "remove", "--force", scratch])
         shutil.rmtree(scratch, ignore_errors=True)
         sh(["git", "-C", "/repo", "worktree", "prune"])
-        sh(["git", "checkout", "--", "evidence"], cwd=VERIF)
+        evbak = out.pop("_evbak", None)
+        if evbak:  # evidence of the unchanged tree as it was before this run (not necessarily committed)
+            for f in os.listdir(evbak):
+                shutil.copy(os.path.join(evbak, f), os.path.join(VERIF, "evidence", f))
+            shutil.rmtree(evbak, ignore_errors=True)
         # Generated tables were regenerated from the patched tree: regenerate from /repo
         sh(["/venv/bin/python", os.path.join(VERIF, "harness", "extract.py")])
 
